@@ -269,3 +269,227 @@ Proof.
   - rewrite (rot_inv _ Va), (rot_inv _ Va'), A1. reflexivity.
   - rewrite (rot_inv _ Va), (rot_inv _ Va'), A1, A2. reflexivity.
 Qed.
+
+(* ------------------------------------------------------------------ the code layer (rot_impl) *)
+#[export] Instance exact_branch_proper : Proper (qeq ==> iff) exact_branch.
+Proof. intros a b H. unfold exact_branch. rewrite H. reflexivity. Qed.
+
+Lemma compose2_impl_exact a b : exact_branch (pr a) -> compose2_impl a b =p= compose2 a b.
+Proof. intros E. unfold compose2_impl, compose2. rewrite (rot_impl_exact _ E). reflexivity. Qed.
+Lemma inverse_impl_exact p : exact_branch (qinv (pr p)) -> inverse_impl p =p= inverse p.
+Proof. intros E. unfold inverse_impl, inverse. cbv zeta. rewrite (rot_impl_exact _ E). reflexivity. Qed.
+Lemma transform_impl_exact p x : exact_branch (pr p) -> transform_impl p x =v= transform p x.
+Proof. intros E. unfold transform_impl, transform. rewrite (rot_impl_exact _ E). reflexivity. Qed.
+
+(* every matrix taken along the fold is exact *)
+Fixpoint chain_exact (p : pose) (ps : list pose) : Prop :=
+  match ps with
+  | [] => True
+  | q :: ps' => exact_branch (pr p) /\ chain_exact (compose2 p q) ps'
+  end.
+Lemma chain_exact_proper ps : forall p p', p =p= p' -> chain_exact p ps -> chain_exact p' ps.
+Proof.
+  induction ps as [|q ps IH]; intros p p' H C; [exact I|]. destruct C as [E C]. split.
+  - rewrite <- (pr_proper _ _ H). assumption.
+  - eapply IH; [|exact C]. rewrite H. reflexivity.
+Qed.
+Lemma compose_from_impl_proper_l ps : forall p p', p =p= p' -> compose_from_impl p ps =p= compose_from_impl p' ps.
+Proof.
+  unfold compose_from_impl. induction ps as [|q ps IH]; intros p p' H; cbn; [assumption|].
+  apply IH. rewrite H. reflexivity.
+Qed.
+Theorem compose_from_impl_exact ps : forall p, chain_exact p ps -> compose_from_impl p ps =p= compose_from p ps.
+Proof.
+  induction ps as [|q ps IH]; intros p C; [reflexivity|]. destruct C as [E C].
+  change (compose_from_impl (compose2_impl p q) ps =p= compose_from (compose2 p q) ps).
+  rewrite <- (IH _ C). apply compose_from_impl_proper_l. apply compose2_impl_exact; assumption.
+Qed.
+(* in particular for chains of exactly-unit quaternions, of any length *)
+Lemma chain_exact_unit ps : forall p, n2 (pr p) == 1 -> Forall (fun q => n2 (pr q) == 1) ps -> chain_exact p ps.
+Proof.
+  induction ps as [|q ps IH]; intros p Hp F; [exact I|]. inversion F; subst. split; [left; assumption|].
+  apply IH; [|assumption]. unfold compose2; cbn [pr]. rewrite n2_mul, Hp, H1. reflexivity.
+Qed.
+
+(* deviation in the band: at most 2*band per matrix entry, hence 6*band*|t|_inf per coordinate *)
+Definition vdist_le (e : Q) (a b : vec) : Prop :=
+  Qabs (vx a - vx b) <= e /\ Qabs (vy a - vy b) <= e /\ Qabs (vz a - vz b) <= e.
+
+Lemma rot_impl_error_band q : ~ n2 q == 0 -> mdist_le (2 * band) (rot_impl q) (rot q).
+Proof.
+  intros NZ. destruct (unit_band q) eqn:B.
+  - pose proof (rot_impl_error q NZ) as H. apply unit_band_true in B.
+    unfold mdist_le in *. repeat match goal with H : _ /\ _ |- _ => destruct H end.
+    conj; match goal with H : Qabs ?x <= _ |- Qabs ?x <= _ => eapply Qle_trans; [exact H|lra] end.
+  - assert (E : rot_impl q =m= rot q) by (apply rot_impl_exact; right; assumption).
+    assert (Z : forall x y, x == y -> Qabs (x - y) <= 2 * band).
+    { intros x y H. assert (x - y == 0) as -> by (rewrite H; ring). vm_compute. discriminate. }
+    unfold mdist_le. unfold meq in E. repeat match goal with H : _ /\ _ |- _ => destruct H end.
+    conj; apply Z; assumption.
+Qed.
+
+Lemma abs_prod_le d v e m : Qabs d <= e -> Qabs v <= m -> Qabs (d * v) <= e * m.
+Proof.
+  intros Hd Hv. rewrite Qabs_Qmult. pose proof (Qabs_nonneg d). pose proof (Qabs_nonneg v). nra.
+Qed.
+Lemma vmaxabs_bounds v : Qabs (vx v) <= vmaxabs v /\ Qabs (vy v) <= vmaxabs v /\ Qabs (vz v) <= vmaxabs v.
+Proof.
+  unfold vmaxabs. repeat split.
+  - apply Q.le_max_l.
+  - eapply Qle_trans; [|apply Q.le_max_r]. apply Q.le_max_l.
+  - eapply Qle_trans; [|apply Q.le_max_r]. apply Q.le_max_r.
+Qed.
+Lemma lin3 e m d0 d1 d2 v0 v1 v2 :
+  Qabs d0 <= e -> Qabs d1 <= e -> Qabs d2 <= e -> Qabs v0 <= m -> Qabs v1 <= m -> Qabs v2 <= m ->
+  Qabs (d0 * v0 + d1 * v1 + d2 * v2) <= 3 * e * m.
+Proof.
+  intros. eapply Qle_trans; [apply Qabs_triangle|]. eapply Qle_trans; [apply Qplus_le_compat; [apply Qabs_triangle|apply Qle_refl]|].
+  pose proof (abs_prod_le d0 v0 e m). pose proof (abs_prod_le d1 v1 e m). pose proof (abs_prod_le d2 v2 e m).
+  intuition. lra.
+Qed.
+Lemma mvmul_dist e A B v : mdist_le e A B -> vdist_le (3 * e * vmaxabs v) (mvmul A v) (mvmul B v).
+Proof.
+  intros D. destruct (vmaxabs_bounds v) as (V0 & V1 & V2). unfold mdist_le in D.
+  repeat match goal with H : _ /\ _ |- _ => destruct H end.
+  unfold vdist_le, mvmul. cbn [vx vy vz].
+  repeat split.
+  - assert (E : m00 A * vx v + m01 A * vy v + m02 A * vz v - (m00 B * vx v + m01 B * vy v + m02 B * vz v)
+               == (m00 A - m00 B) * vx v + (m01 A - m01 B) * vy v + (m02 A - m02 B) * vz v) by ring.
+    rewrite E. apply lin3; assumption.
+  - assert (E : m10 A * vx v + m11 A * vy v + m12 A * vz v - (m10 B * vx v + m11 B * vy v + m12 B * vz v)
+               == (m10 A - m10 B) * vx v + (m11 A - m11 B) * vy v + (m12 A - m12 B) * vz v) by ring.
+    rewrite E. apply lin3; assumption.
+  - assert (E : m20 A * vx v + m21 A * vy v + m22 A * vz v - (m20 B * vx v + m21 B * vy v + m22 B * vz v)
+               == (m20 A - m20 B) * vx v + (m21 A - m21 B) * vy v + (m22 A - m22 B) * vz v) by ring.
+    rewrite E. apply lin3; assumption.
+Qed.
+Lemma vdist_vadd e a b t : vdist_le e a b -> vdist_le e (vadd a t) (vadd b t).
+Proof.
+  intros (H0 & H1 & H2). unfold vdist_le, vadd. cbn [vx vy vz].
+  assert (E : forall x y z, x + z - (y + z) == x - y) by (intros; ring).
+  rewrite !E. auto.
+Qed.
+
+(* 6 * band = 6e-14 *)
+Theorem compose2_impl_close a b : valid a ->
+  pr (compose2_impl a b) = pr (compose2 a b) /\
+  vdist_le (6 * band * vmaxabs (pt b)) (pt (compose2_impl a b)) (pt (compose2 a b)).
+Proof.
+  intros Va. split; [reflexivity|]. unfold compose2_impl, compose2. cbn [pt]. apply vdist_vadd.
+  pose proof (mvmul_dist _ _ _ (pt b) (rot_impl_error_band _ Va)) as H.
+  assert (E : 3 * (2 * band) * vmaxabs (pt b) == 6 * band * vmaxabs (pt b)) by ring.
+  unfold vdist_le in *. rewrite <- E. exact H.
+Qed.
+Theorem transform_impl_close p x : valid p ->
+  vdist_le (6 * band * vmaxabs x) (transform_impl p x) (transform p x).
+Proof.
+  intros Vp. unfold transform_impl, transform. apply vdist_vadd.
+  pose proof (mvmul_dist _ _ _ x (rot_impl_error_band _ Vp)) as H.
+  assert (E : 3 * (2 * band) * vmaxabs x == 6 * band * vmaxabs x) by ring.
+  unfold vdist_le in *. rewrite <- E. exact H.
+Qed.
+Theorem inverse_impl_close p : valid p ->
+  pr (inverse_impl p) = pr (inverse p) /\
+  vdist_le (6 * band * vmaxabs (pt p)) (pt (inverse_impl p)) (pt (inverse p)).
+Proof.
+  intros Vp. split; [reflexivity|]. unfold inverse_impl, inverse. cbv zeta. cbn [pt].
+  pose proof (mvmul_dist _ _ _ (vneg (pt p)) (rot_impl_error_band _ (n2_inv_nonzero _ Vp))) as H.
+  assert (M : vmaxabs (vneg (pt p)) == vmaxabs (pt p)).
+  { unfold vmaxabs, vneg. cbn [vx vy vz]. rewrite !Qabs_opp. reflexivity. }
+  assert (E : 3 * (2 * band) * vmaxabs (vneg (pt p)) == 6 * band * vmaxabs (pt p)) by (rewrite M; ring).
+  unfold vdist_le in *. rewrite <- E. exact H.
+Qed.
+
+(* ------------------------------------------------------------------ the API layer refines the code layer *)
+Definition opt_rel {A} (R : A -> A -> Prop) (a b : option A) : Prop :=
+  match a, b with Some x, Some y => R x y | None, None => True | _, _ => False end.
+Definition oeq (a b : opose) : Prop := opt_rel qeq (o_r a) (o_r b) /\ opt_rel veq (o_t a) (o_t b).
+
+Lemma oeq_refl a : oeq a a.
+Proof. destruct a as [[r|] [t|]]; split; cbn; try exact I; reflexivity. Qed.
+
+Lemma is_zero_false q : ~ n2 q == 0 -> is_zero q = false.
+Proof.
+  intros NZ. unfold is_zero. destruct (Qeq_bool (n2_r q) 0) eqn:E; [|reflexivity].
+  apply Qeq_bool_iff in E. rewrite n2_r_eq in E. contradiction.
+Qed.
+Lemma is_zero_true q : n2 q == 0 -> is_zero q = true.
+Proof. intros Z. unfold is_zero. apply Qeq_bool_iff. rewrite n2_r_eq. assumption. Qed.
+
+Lemma compose_step_refines acc a b : oeq acc (lift a) -> valid a ->
+  exists m, compose_step (Ok acc) (lift b) = Ok m /\ oeq m (lift (compose2_impl a b)).
+Proof.
+  intros [Hr Ht] Va. destruct acc as [[ra|] [ta|]]; cbn in Hr, Ht; try contradiction.
+  assert (NZ : ~ n2 ra == 0) by (rewrite Hr; exact Va).
+  unfold compose_step, lift. cbn [o_r o_t]. rewrite (is_zero_false _ NZ).
+  eexists. split; [reflexivity|]. split; cbn [o_r o_t lift compose2_impl pr pt opt_rel].
+  - rewrite qmul_r_eq, Hr. reflexivity.
+  - rewrite (apply_parts_r_eq _ _ NZ), Hr, Ht. reflexivity.
+Qed.
+
+Lemma compose_fold_refines ps : forall acc a, oeq acc (lift a) -> valid a -> Forall valid ps ->
+  exists m, fold_left compose_step (map lift ps) (Ok acc) = Ok m /\ oeq m (lift (compose_from_impl a ps)).
+Proof.
+  induction ps as [|b ps IH]; intros acc a H Va F.
+  - exists acc. split; [reflexivity | assumption].
+  - inversion F; subst. cbn [map fold_left].
+    destruct (compose_step_refines acc a b H Va) as (m & E & Hm). rewrite E.
+    apply (IH m (compose2_impl a b) Hm); [apply valid_compose2_impl|]; assumption.
+Qed.
+
+(* compose on complete poses with non-zero quaternions returns, and returns the left fold of the code layer *)
+Theorem compose_api_refines p ps : Forall valid (p :: ps) ->
+  exists m, compose_api (map lift (p :: ps)) = Ok m /\ oeq m (lift (compose_from_impl p ps)).
+Proof.
+  intros F. inversion F; subst. cbn [map compose_api].
+  apply compose_fold_refines; [apply oeq_refl | assumption | assumption].
+Qed.
+
+Theorem inverse_api_refines p : valid p ->
+  exists m, inverse_api (lift p) = Ok m /\ oeq m (lift (inverse_impl p)).
+Proof.
+  intros Vp. unfold inverse_api, lift. cbn [o_r o_t]. rewrite (is_zero_false _ Vp).
+  eexists. split; [reflexivity|]. split; cbn [o_r o_t lift inverse_impl pr pt opt_rel]; cbv zeta; cbn [pr pt].
+  - apply qinv_n_eq.
+  - apply apply_parts_inv_r_eq; assumption.
+Qed.
+
+Definition row3 (v : vec) : list Q := [vx v; vy v; vz v].
+Definition row6 (vc : vec * vec) : list Q := [vx (fst vc); vy (fst vc); vz (fst vc); vx (snd vc); vy (snd vc); vz (snd vc)].
+Lemma rows_xyz_row3 xs : rows_xyz (map row3 xs) = Some xs.
+Proof. induction xs as [|[a b c] xs IH]; cbn; [reflexivity|]. cbn in IH. rewrite IH. reflexivity. Qed.
+(* Nx6 arrays: the colour columns are dropped *)
+Lemma rows_xyz_row6 xcs : rows_xyz (map row6 xcs) = Some (map fst xcs).
+Proof. induction xcs as [|[[a b c] col] xs IH]; cbn; [reflexivity|]. cbn in IH. rewrite IH. reflexivity. Qed.
+
+Theorem transform_api_refines p rows xs : valid p -> rows_xyz rows = Some xs ->
+  exists ms, transform_api (lift p) rows = Ok ms /\ Forall2 veq ms (map (transform_impl p) xs).
+Proof.
+  intros Vp R. unfold transform_api, lift. cbn [o_r o_t]. rewrite R, (is_zero_false _ Vp). cbv zeta.
+  eexists. split; [reflexivity|]. clear R. induction xs as [|x xs IH]; cbn [map]; constructor; [|assumption].
+  unfold transform_impl. rewrite (apply_parts_r_eq _ _ Vp). reflexivity.
+Qed.
+
+(* the fold structure that MPose.CChain relies on *)
+Lemma compose_api_snoc ps p : ps <> [] -> compose_api (ps ++ [p]) = compose_step (compose_api ps) p.
+Proof.
+  destruct ps as [|a ps]; [congruence|]. intros _. cbn [app compose_api]. rewrite fold_left_app. reflexivity.
+Qed.
+Lemma compose_api_single p : compose_api [p] = Ok p.
+Proof. reflexivity. Qed.
+Lemma compose_api_empty : compose_api [] = Raises.
+Proof. reflexivity. Qed.
+(* outside the property's quantifier: what the model says *)
+Lemma inverse_api_none_r t : inverse_api (mkO None t) = Raises.
+Proof. reflexivity. Qed.
+Lemma inverse_api_none_t r : inverse_api (mkO r None) = Raises.
+Proof. destruct r; reflexivity. Qed.
+Lemma inverse_api_zero r t : n2 r == 0 -> inverse_api (mkO (Some r) (Some t)) = NonFinite.
+Proof. intros Z. unfold inverse_api. cbn [o_r o_t]. rewrite (is_zero_true _ Z). reflexivity. Qed.
+Lemma transform_api_zero r t rows : n2 r == 0 -> transform_api (mkO (Some r) (Some t)) rows = Raises.
+Proof. intros Z. unfold transform_api. cbn [o_r o_t]. rewrite (is_zero_true _ Z). destruct (rows_xyz rows); reflexivity. Qed.
+Lemma compose_step_zero ra ta c : n2 ra == 0 -> compose_step (Ok (mkO (Some ra) (Some ta))) c = Raises.
+Proof.
+  intros Z. unfold compose_step. cbn [o_r o_t]. rewrite (is_zero_true _ Z).
+  destruct (o_r c), (o_t c); reflexivity.
+Qed.
